@@ -35,7 +35,7 @@ RULE = ("each run draws one framework accumulator with its constructor arguments
         "every operation the yielded results are compared with an independent reference aggregate "
         "and, after a reset, with a freshly constructed twin fed the same suffix; non-trivial = "
         "at least one compute after at least two fills, or a fill after a reset; distinct = "
-        "distinct abstracted event-kind sequences"
+        "distinct abstracted event-kind sequences."
         " Since the seeded rounds also: big integers and Fractions, dotted counter names, None"
         " among group keys, nested group contexts in permuted insertion order, Vectorize over item"
         " stores and over components of unequal result counts, results updated in place / asked"
